@@ -33,6 +33,7 @@ class Zygote(object):
         env['OPENBLAS_NUM_THREADS'] = '1'
         env['MKL_NUM_THREADS'] = '1'
         env['HDF5_USE_FILE_LOCKING'] = 'FALSE'
+        env['VERIF_SCRATCH'] = batch_scratch()
         env.pop('PYTHONWARNINGS', None)
         if debug_log:
             env['VERIF_DEBUG_LOG'] = debug_log
@@ -69,6 +70,23 @@ class Zygote(object):
             self.p.wait(timeout=10)
         except Exception:
             self.p.kill()
+
+
+_SCRATCH = [None]
+
+
+def batch_scratch():
+    """one scratch directory per batch process, removed at exit (children
+    that are killed cannot clean up after themselves)"""
+    import atexit
+    import shutil
+    import tempfile
+    if _SCRATCH[0] is None:
+        from . import seams
+        d = tempfile.mkdtemp(prefix='pncsim-batch.', dir=seams.scratch_root())
+        _SCRATCH[0] = d
+        atexit.register(shutil.rmtree, d, True)
+    return _SCRATCH[0]
 
 
 class Pool(object):
